@@ -20,6 +20,7 @@ mod c14;
 mod c15;
 mod c16;
 mod c18;
+mod c19;
 mod c20;
 
 type ReplayFn = fn(&Ctx, &J) -> Result<(), String>;
@@ -44,6 +45,7 @@ fn table(prop: &str) -> Option<(RunFn, ReplayFn)> {
     "C15" => (c15::run, c15::replay),
     "C16" => (c16::run, c16::replay),
     "C18" => (c18::run, c18::replay),
+    "C19" => (c19::run, c19::replay),
     "C20" => (c20::run, c20::replay),
     _ => return None,
   })
